@@ -26,7 +26,7 @@ ASSUMPTIONS = ['coordinates and leeways are multiples of 1/8 (exact float arithm
 FLOORS = {'quick': {'queries': 12000, 'queries_nonwrap': 6100, 'queries_wrap': 6300, 'on_face_agents': 5000, 'nonempty_answers': 4900,
                     'empty_answers': 2000, 'negative_leeway_queries': 1000, 'axis_leeway_larger': 3000, 'general_leeway_larger': 3000,
                     'query_outside_world': 2000, 'coincident_pairs': 500, 'big_worlds': 8, 'big_queries': 150, 'agents_with_position_subclass_component': 1000, 'second_world_on_same_model': 300, 'reach:Environments.SpaceWorld.get_agents_at': 12000},
-          'thorough': {'queries': 1500000, 'on_face_agents': 400000}}
+          'thorough': {'queries': 1000000, 'on_face_agents': 400000}}
 EXHAUSTIVE = {}
 
 
